@@ -6,7 +6,7 @@ import (
 	"sync"
 	"testing"
 
-	"github.com/gotid/god/internal/vrt"
+	vrt "github.com/gotid/god"
 )
 
 // event log shared by the scenario threads (only one thread runs at a time)
